@@ -1261,7 +1261,7 @@ class SimplicialComplex:
                             s = self.addSimplex(fs=cfs)
                             i = self.indexOf(s)
                             nss[k].add(i)
-                            maxk = k
+                            maxk = max(maxk, k)
 
     def flagComplex(self) -> 'SimplicialComplex':
         """Generate the :term:`flag complex` of this complex. The flag complex
